@@ -1,6 +1,102 @@
-"""Call by contract (filled in with the algebra layer)."""
-from .sym import Unsupported
+"""Call by contract: at a call site of a function that has a contract (and is listed in the
+theorem's `modular`), the callee's body is not consulted.  Its precondition becomes an obligation,
+its cases fork the path, and the postcondition of the chosen case is assumed about a fresh result."""
+import z3
+
+from .sym import Unsupported, VBytes, VInt, is_sym, bytes_len, zi
+from . import engine as E
 
 
-def call_by_contract(it, f, contract, args, kwargs, node):
-    raise Unsupported("modular calls not implemented yet")
+def type_requires(pname, ty):
+    """Implicit preconditions carried by a parameter type."""
+    if isinstance(ty, str) and ty.startswith("bytes:"):
+        return [f"len({pname}) == {int(ty.split(':')[1])}"]
+    if ty == "nat":
+        return [f"{pname} >= 0"]
+    return []
+
+
+def call_by_contract(it, f, thm, args, kwargs, node):
+    from . import verify
+    ctx = it.ctx
+    fd = it.repo.fdef(f)
+    env = it.bind(fd, f, args, kwargs, node)
+    cur = ctx.opts["thm"].name
+    qn = it.qualname(f)
+    short = qn.split(".", 1)[1] if qn.startswith("bits.") else qn
+    # the contract's parameters are the callee's formal parameters (possibly a subset with defaults fixed)
+    fr = E.Frame({}, verify.harness_globals(), "<contract>")
+    for p, ty in thm.params.items():
+        if p not in env:
+            raise Unsupported(f"contract {thm.name} names parameter {p!r} that {qn} does not have")
+        fr.locals[p] = env[p]
+    for p, v in env.items():
+        if p not in thm.params:
+            fixed = thm.options.get("fixed_args", {})
+            if p in fixed and not is_sym(v) and v == fixed[p]:
+                continue
+            raise Unsupported(f"call of {qn} passes {p}={v!r} which contract {thm.name} does not cover")
+    n = ctx.counters.get(("callsite", cur, qn), 0)
+    ctx.counters[("callsite", cur, qn)] = n + 1
+    site = f"{cur}.call.{short}.pre"
+    for p, ty in thm.params.items():
+        if isinstance(ty, (tuple, list)) and ty and ty[0] == "enum":
+            if is_sym(fr.locals[p]) or fr.locals[p] not in ty[1]:
+                ctx.oblige(site, z3.BoolVal(False), {"kind": "call-pre", "clause": f"{p} in {ty[1]!r}"})
+        for r in type_requires(p, ty):
+            ctx.oblige(site, verify.formula(it, r, fr), {"kind": "call-pre", "clause": r})
+    for r in thm.requires:
+        ctx.oblige(site, verify.formula(it, r, fr), {"kind": "call-pre", "clause": r})
+    for k, src in thm.lets.items():
+        fr.locals[k] = verify.value_of(it, src, fr)
+    ctx.notes["assumed_contracts"].add(thm.name)
+    # deterministic (pure) callee: the same arguments give the same outcome on this path
+    try:
+        key = (qn,) + tuple(_argkey(fr.locals[p]) for p in thm.params)
+    except Unsupported:
+        key = None
+    memo = ctx.ghost.setdefault("pure_calls", [])
+    if key is not None and thm.options.get("pure", True):
+        for k2, keep, outcome in memo:
+            if k2 == key:
+                if outcome[0] == "raise":
+                    raise E.PyRaise(outcome[1], None, getattr(node, "lineno", None))
+                return outcome[1]
+    cases = thm.cases
+    k = ctx.fork(len(cases)) if len(cases) > 1 else 0
+    case = cases[k]
+    ctx.assume(verify.formula(it, case.when, fr))
+    if case.raises is not None:
+        if key is not None:
+            memo.append((key, [fr.locals[p] for p in thm.params], ("raise", case.raises[0])))
+        raise E.PyRaise(case.raises[0], None, getattr(node, "lineno", None))
+    rty = thm.options.get("returns")
+    if rty is None:
+        raise Unsupported(f"contract {thm.name} used modularly needs options['returns']")
+    result = verify.make_param(ctx, ctx.fresh_name(f"ret_{f.__name__}"), rty, [])
+    fr.locals["result"] = result
+    for cname, clause in case.clauses():
+        ctx.assume(verify.formula(it, clause, fr))
+    if key is not None:
+        memo.append((key, [fr.locals[p] for p in thm.params], ("return", result)))
+    return result
+
+
+def _argkey(v):
+    """Syntactic identity of an argument value (z3 terms are hash-consed; the values are kept alive by the memo)."""
+    from .sym import VBool, VHex, VSeq, to_vbytes
+    if isinstance(v, (int, bool, str, bytes, type(None))):
+        return ("c", type(v).__name__, v)
+    if isinstance(v, VInt):
+        return ("i", z3.simplify(v.z).sexpr())
+    if isinstance(v, VBytes):
+        return ("b", z3.simplify(v.z).sexpr())
+    if isinstance(v, VBool):
+        return ("o", z3.simplify(v.z).sexpr())
+    if isinstance(v, VHex):
+        return ("h", _argkey(v.b))
+    if isinstance(v, VSeq):
+        return ("s", z3.simplify(v.z).sexpr())
+    if isinstance(v, (tuple, list)):
+        return (type(v).__name__,) + tuple(_argkey(x) for x in v)
+    raise Unsupported("argument kind in pure-call memo")
